@@ -2,6 +2,7 @@ package main
 
 import (
 	"bufio"
+	"bytes"
 	"encoding/json"
 	"flag"
 	"fmt"
@@ -198,18 +199,19 @@ func topoFromDoc(b []byte) ([]string, error) {
 }
 
 type metaCase struct {
-	Kind     string   `json:"kind"` // crashpoint | idle | random | second
-	Point    string   `json:"point,omitempty"`
-	Nth      int      `json:"nth,omitempty"`
-	Seed     int64    `json:"seed"`
-	Fails    []string `json:"fails"`
-	Incon    string   `json:"inconclusive,omitempty"`
-	Died     bool     `json:"died_at_point"`
-	Ops      int      `json:"ops"`
-	Reads    int64    `json:"file_reads"`
-	Loaded   []string `json:"loaded"`
-	Trace    string   `json:"trace,omitempty"`
-	Restarts int      `json:"restarts"`
+	Kind         string   `json:"kind"` // crashpoint | idle | random | second
+	Point        string   `json:"point,omitempty"`
+	Nth          int      `json:"nth,omitempty"`
+	Seed         int64    `json:"seed"`
+	Fails        []string `json:"fails"`
+	Incon        string   `json:"inconclusive,omitempty"`
+	Died         bool     `json:"died_at_point"`
+	Ops          int      `json:"ops"`
+	Reads        int64    `json:"file_reads"`
+	Loaded       []string `json:"loaded"`
+	Trace        string   `json:"trace,omitempty"`
+	Restarts     int      `json:"restarts"`
+	FailedStarts int      `json:"failed_starts"`
 }
 
 func (m *metaCase) failf(f string, a ...interface{}) { m.Fails = append(m.Fails, fmt.Sprintf(f, a...)) }
@@ -626,7 +628,7 @@ func runMetaCase(bin, dir string, mc *metaCase) {
 		} else {
 			mc.Died = true
 		}
-	case "idle", "idledelete", "idleburst", "ackburst":
+	case "idle", "idledelete", "idleburst", "ackburst", "idleterm":
 		// wait until every notify goroutine has finished and the file has stopped changing
 		deadline := time.Now().Add(20 * time.Second)
 		for {
@@ -668,6 +670,41 @@ func runMetaCase(bin, dir string, mc *metaCase) {
 			mc.failf("the first nsqd stopped answering after a second one was pointed at its data path")
 		}
 	}
+	var lateNames []string
+	var lmu sync.Mutex
+	if mc.Kind == "idleterm" && mc.Incon == "" {
+		// a graceful shutdown with creations under way: whatever the daemon writes on its way out, the
+		// next one starts with everything that was there when the daemon was last idle
+		// (a handful of clients keep creating channels and topics, one after the other, until the daemon stops answering)
+		lateNames = append(lateNames, "t1")
+		for g := 0; g < 6; g++ {
+			go func(g int) {
+				for i := 0; i < 400; i++ {
+					var p, name string
+					if (g+i)%3 == 0 {
+						name = fmt.Sprintf("lt%d-%d", g, i)
+						p = "/topic/create?topic=" + name
+					} else {
+						name = fmt.Sprintf("t1/lc%d-%d", g, i)
+						p = "/channel/create?topic=t1&channel=" + fmt.Sprintf("lc%d-%d", g, i)
+					}
+					lmu.Lock()
+					lateNames = append(lateNames, name)
+					lmu.Unlock()
+					if st, _ := c.req("POST", p); st == 0 {
+						return
+					}
+				}
+			}(g)
+		}
+		time.Sleep(time.Duration(2000+rng.Intn(8000)) * time.Microsecond)
+		c.cmd.Process.Signal(syscall.SIGTERM)
+		select {
+		case <-c.exited:
+		case <-time.After(40 * time.Second):
+			mc.failf("[C05] nsqd did not exit within 40 s of SIGTERM")
+		}
+	}
 	c.kill() // SIGKILL (no-op if it killed itself)
 	atomic.StoreInt32(&stopRead, 1)
 	rwg.Wait()
@@ -682,6 +719,48 @@ func runMetaCase(bin, dir string, mc *metaCase) {
 		}
 	}
 	visited := snapshotsOf(trace)
+	// a start that fails half-way (after the data path has been taken: an address in use, an option the daemon refuses) in
+	// between: it must leave the metadata exactly as it found it
+	if mc.Kind == "random" || mc.Kind == "idle" || mc.Kind == "idleburst" {
+		before, _ := os.ReadFile(fn)
+		var extra []string
+		var hold net.Listener
+		switch mc.Seed % 6 {
+		case 0, 1:
+			if ln, err := net.Listen("tcp", "127.0.0.1:0"); err == nil {
+				hold = ln
+				flag := []string{"--tcp-address", "--http-address"}[mc.Seed%2]
+				extra = []string{flag, ln.Addr().String()}
+			}
+		case 2:
+			extra = []string{"--max-deflate-level", "0"}
+		case 3:
+			extra = []string{"--node-id", "5000"}
+		case 4:
+			extra = []string{"--tls-required", "true"}
+		case 5:
+			extra = []string{"--auth-http-address", "127.0.0.1:1", "--auth-http-request-method", "put"}
+		}
+		if extra != nil {
+			cf, ferr := startChild(bin, data, filepath.Join(dir, "trace-failed.ndjson"), "", extra...)
+			if hold != nil {
+				hold.Close()
+			}
+			if ferr == nil {
+				cf.kill() // it started after all: nothing to learn
+			} else {
+				if cf != nil {
+					cf.kill()
+				}
+				after, _ := os.ReadFile(fn)
+				if !bytes.Equal(before, after) {
+					mc.failf("a start attempt that failed (%v) changed nsqd.dat: it held %q before and holds %q after", extra, string(before[:min(len(before), 300)]), string(after[:min(len(after), 300)]))
+					return
+				}
+				mc.FailedStarts++
+			}
+		}
+	}
 	c2, err := startChild(bin, data, filepath.Join(dir, "trace2.ndjson"), "")
 	mc.Restarts++
 	if err != nil {
@@ -705,6 +784,30 @@ func runMetaCase(bin, dir string, mc *metaCase) {
 	}
 	if len(loaded) > 0 && !visited[key] {
 		mc.failf("after the restart the daemon has topics/channels %v, a set it never passed through (it persisted only %d distinct documents)", loaded, len(visited))
+	}
+	if mc.Kind == "idleterm" && mc.Incon == "" {
+		has := map[string]bool{}
+		for _, k := range loaded {
+			has[k] = true
+		}
+		for _, k := range idleTopo {
+			if !has[k] {
+				mc.failf("[idleterm] the daemon was idle with %v; after SIGTERM (with channel and topic creations under way) and restart it has %v: %s is gone", idleTopo, loaded, k)
+				break
+			}
+		}
+		was := map[string]bool{}
+		for _, k := range idleTopo {
+			was[k] = true
+		}
+		for _, k := range loaded {
+			lmu.Lock()
+			late := has_(lateNames, k)
+			lmu.Unlock()
+			if !was[k] && !late {
+				mc.failf("[idleterm] after SIGTERM and restart the daemon has %s, which it neither had when idle nor was asked to create", k)
+			}
+		}
 	}
 	if (mc.Kind == "idle" || mc.Kind == "idledelete" || mc.Kind == "idleburst" || mc.Kind == "ackburst") && mc.Incon == "" {
 		if strings.Join(idleTopo, ",") != key {
@@ -842,6 +945,15 @@ func countEvents(trace string) (spawn, done int) {
 }
 
 // snapshotsOf: every document the first lifetime took a snapshot of (= states it passed through, under the lock)
+func has_(ss []string, s string) bool {
+	for _, x := range ss {
+		if x == s {
+			return true
+		}
+	}
+	return false
+}
+
 func snapshotsOf(trace string) map[string]bool {
 	out := snapshotsOfStrict(trace)
 	out[""] = true
